@@ -1043,8 +1043,10 @@ type responseWriter struct {
 	headersFlushed bool
 	// have we already written the end of the stream (error/trailers/etc)?
 	endWritten bool
-	respMeta   *responseMeta
-	err        error
+	// returned by Header() once endWritten is true
+	detachedHeader http.Header
+	respMeta       *responseMeta
+	err            error
 	// wraps op.writer; initialized after headers are written
 	w io.WriteCloser
 	// may be used in place of op.writer for protocols that must see
@@ -1054,6 +1056,15 @@ type responseWriter struct {
 }
 
 func (w *responseWriter) Header() http.Header {
+	if w.endWritten {
+		// The RPC result has already been sent to the client. Anything the
+		// handler still sets (like trailers carrying its own status) must
+		// not reach the client as a second result, so hand out a detached copy.
+		if w.detachedHeader == nil {
+			w.detachedHeader = w.delegate.Header().Clone()
+		}
+		return w.detachedHeader
+	}
 	return w.delegate.Header()
 }
 
